@@ -1,5 +1,6 @@
 """C05 - unmanaged pool conserves its objects and respects max_size."""
 from .ucommon import uroles
+from . import poscontrol
 from .mcommon import calls_named, in_cycle, held_locals, governing_conditions
 from .roles import adt_of, PERMIT_ADT
 from .facts import strip_generics, Operand, Place
@@ -55,6 +56,7 @@ def run(ctx):
                 if targ == 'T' or targ.startswith('std::vec::Vec<T') or targ.startswith('std::option::Option<T'):
                     ctx.ob('R05.1', 'no clone of a pooled object', False, ctx.where(b, t.line), targ, construct='clone-T:' + b.name)
 
+    poscontrol.assert_controls(ctx, ['clone'])
     # ---- R05.2 drop-site audit ----------------------------------------------------------------
     n = 0
     for b in bodies:
@@ -133,6 +135,18 @@ def run(ctx):
                 ctx.ob('R05.2', 'the queue is cleared outside close() only when the pool is closed', ok, ctx.where(cb, cb.blocks[bb].term.line), 'clear called from %s' % cb.name,
                        construct='clear-from:' + cb.name)
         ctx.floor('R05.2', 'callers of the clearing function', len(callers), 2)
+        for cp, bb, k in callers:
+            cb = prog.bodies[cp]
+            if cp == r.CLOSE.path:
+                continue
+            can = prog.an(cb)
+            conds = [blk for blk in cb.blocks if blk.term.kind == 'switch' and blk.term.j.get('dty') == 'bool' and
+                     any(s[0] == 'call' and s[1].endswith('is_closed') for s in sources(can, blk.term.discr))]
+            falses = [dict(x.term.switch_arms())['false'] for x in conds]
+            esc = can.reach([0], ('normal',), avoid=[bb] + falses)
+            okc = bool(conds) and not any(e in esc for e in can.exits()['return'])
+            ctx.ob('R05.2', 'a closed pool is always cleared when an object comes back (no further condition)', okc, ctx.where(cb, cb.blocks[bb].term.line),
+                   'the clean-up can be skipped although the pool is closed: an object returned then stays in the closed pool' if not okc else '', construct='cleanup-conditional:' + cb.name)
 
     # ---- R05.3 ordering ---------------------------------------------------------------------------
     for b in (r.ADD_HELPER, r.OBJ_DROP):
@@ -204,6 +218,19 @@ def run(ctx):
     adds = r.sem_calls(tk, 'add_permits')
     subs = [x for x in r.atomic_calls(tk, r.SIZE) if x[1] == 'fetch_sub']
     ok = len(adds) == 1 and adds[0][1] == 'SIZESEM' and tan.resolve_operand(adds[0][0].term.args[1]) == '1_usize' and len(subs) == 1 and subs[0][2] == '1_usize'
+    if ok:
+        # ... on every path on which the pool is still alive (no condition on how full the pool was)
+        ups = [x for x in tk.blocks if x.term.kind == 'switch' and x.term.j.get('adt') == 'std::option::Option' and 'on' in x.term.j and
+               any(s[0] == 'call' and s[1].endswith('Weak::upgrade') for s in sources(tan, Operand({'c': x.term.j['on']})))]
+        rets = tan.exits()['return']
+        for what, bb in (('add_permits(1) on the size semaphore', adds[0][0].idx), ('size -= 1', subs[0][0].idx)):
+            okp = bool(ups)
+            for u_ in ups:
+                arms = dict(u_.term.switch_arms())
+                esc = tan.reach([arms['Some']], ('normal',), avoid=[bb, arms['None']])
+                okp = okp and not any(e in esc for e in rets)
+            ctx.ob('R05.4', 'take: %s on every path with a live pool' % what, okp, ctx.where(tk, tk.blocks[bb].term.line),
+                   'the size slot is only given back conditionally: capacity leaks when the condition does not hold' if not okp else '', construct='take-size-slot-conditional:' + what.split()[0])
     ctx.ob('R05.4', 'take returns one permit to the size semaphore and decrements size once', ok, ctx.where(tk),
            'add_permits %s, size updates %s' % ([(w, tan.resolve_operand(x.term.args[1])) for x, w in adds], [(x[1], x[2]) for x in subs]), construct='take-size-slot')
     # constructors
@@ -354,6 +381,12 @@ def run(ctx):
         subs = [(x.name, strip_generics(list(blk.term.callee_names())[0]).split('::')[-1], prog.an(x).resolve_operand(blk.term.args[1])) for x in gn + gd for blk in x.blocks
                 if blk.term.kind == 'call' and not blk.cleanup and any('atomic' in n_ and n_.split('::')[-1] in ('fetch_add', 'fetch_sub') for n_ in blk.term.callee_names())]
         ops = sorted((o, a) for _, o, a in subs)
+        if gd:
+            gan = prog.an(gd[0])
+            fa_ = [blk for blk in gd[0].blocks if blk.term.kind == 'call' and not blk.cleanup and any(n_.endswith('::fetch_add') for n_ in blk.term.callee_names())]
+            esc = gan.reach([0], ('normal',), avoid=[x.idx for x in fa_])
+            ctx.ob('R05.7', 'the guard restores available on every path of its Drop', bool(fa_) and not any(e in esc for e in gan.exits()['return']), ctx.where(gd[0]),
+                   'the +1 in Drop is conditional: a get that ends without an object can leave available decremented', construct='getguard-drop-conditional')
         ctx.ob('R05.7', 'the guard undoes exactly what it did (-1 on creation, +1 on drop)', ops == [('fetch_add', '1_isize'), ('fetch_sub', '1_isize')] and
                any(n_ == gd[0].name and o == 'fetch_add' for n_, o, a in subs) if gd else False, '', str(subs), construct='getguard-symmetry')
 
